@@ -61,6 +61,14 @@ fn read_patterns_small() -> Vec<Value> {
     ]
 }
 
+fn fi_of(framing: &str) -> usize {
+    match framing {
+        "length" => 0,
+        "chunked" => 1,
+        _ => 2,
+    }
+}
+
 pub fn generate(family: &str, seed: u64, tier: &str) -> Vec<String> {
     let thorough = tier == "thorough";
     let mut out: Vec<Value> = Vec::new();
@@ -524,6 +532,12 @@ pub fn generate(family: &str, seed: u64, tier: &str) -> Vec<String> {
                                 "body":{"kind":framing,"chunkpat":[*r.pick(&[1usize, 13, 4096, 65536, 100000]), *r.pick(&[5usize, 65537, 8192])]}}));
                             if coding == "gzip" && level % 4 == 1 {
                                 sc["gz"] = json!({"name":"payload.bin","comment":"a comment","extra":"XTRA"});
+                            }
+                            if (level + pi + fi_of(framing)) % 5 == 3 {
+                                // a 3xx that is never followed, with a Location, redirects left switched on
+                                sc["status"] = json!([300usize, 305, 399][(level + pi) % 3]);
+                                sc["hdrs"] = json!([["Location", "/elsewhere"]]);
+                                sc["follow"] = json!(true);
                             }
                             if (level + pi) % 4 == 2 {
                                 // not having asked for compression does not change what a declared coding means
